@@ -95,7 +95,10 @@ def batch_case(draw):
     trees = [[_values_for(draw, lf) for lf in lv] for _ in range(b)]
     elem = [_values_for(draw, lf) for lf in lv]
     i = draw(st.integers(-b, b - 1))     # all indices i, negative ones included (x[i] / .at[i] semantics)
-    return {"structure": s, "trees": trees, "element": elem, "index": i,
+    # "Its leaves are scalars or arrays whose dimension is one less than `tree`": per leaf, the element may also be
+    # a scalar (0-d array or Python number) that fills the whole row
+    scalar = [draw(st.sampled_from(["full", "full", "full", "scalar0d", "pyscalar"])) for _ in lv]
+    return {"structure": s, "trees": trees, "element": elem, "index": i, "elem_kind": scalar,
             "index_kind": draw(st.sampled_from(["int", "np", "jnp"]))}
 
 
@@ -168,7 +171,17 @@ def eval_batch(case):
     s, b, i = case["structure"], len(case["trees"]), case["index"]
     idx = {"int": i, "np": np.int32(i), "jnp": jnp.asarray(i, jnp.int32)}[case["index_kind"]]
     ts = [build(s, iter(v), mk_jnp) for v in case["trees"]]
-    elem = build(s, iter(case["element"]), mk_jnp)
+    kinds = iter(case.get("elem_kind") or [])
+
+    def mk_elem(leaf, vals):
+        kind = next(kinds, "full")
+        n_el = int(np.prod(leaf["shape"])) if leaf["shape"] else 1
+        if kind == "full" or n_el == 0:
+            return mk_jnp(leaf, vals)
+        v0 = np.asarray(vals[:1], dtype=leaf["dtype"])[0]
+        return jnp.asarray(v0) if kind == "scalar0d" else v0.item()
+
+    elem = build(s, iter(case["element"]), mk_elem)
     fails = []
     stacked = tree_utils.tree_transpose(ts)
     ref_leaves = [jax.tree_util.tree_leaves(t) for t in ts]
@@ -199,9 +212,9 @@ def eval_batch(case):
         for li, lf in enumerate(jax.tree_util.tree_leaves(new)):
             lf = np.asarray(lf)
             want = np.stack([np.asarray(r[li]) for r in ref_leaves], 0).copy()
-            if want.shape[1:] != np.asarray(el[li]).shape:
+            if want.shape[1:] != np.asarray(el[li]).shape and np.asarray(el[li]).shape != ():
                 continue
-            want[i] = np.asarray(el[li])     # NumPy applies the same (possibly negative) index
+            want[i] = np.asarray(el[li])     # NumPy applies the same (possibly negative) index; a scalar fills the row
             if lf.dtype != want.dtype or lf.shape != want.shape:
                 fails.append(("add.dtype_shape", "dtype/shape changed", f"leaf {li}: {lf.dtype}{lf.shape} vs {want.dtype}{want.shape}"))
             elif lf[i].tolist() != want[i].tolist():
